@@ -23,5 +23,6 @@ INVARIANTS
   Rule3Exact
   ReduciblePairs
   DefinitionsSane
+  TopRanksByValue
   Export
 CHECK_DEADLOCK FALSE
